@@ -54,6 +54,19 @@ class ExpoDomain(GroupDomain):
         return GroupDomain.method(self, I, f, this, args)
 
 
+class SpyExpo(ExpoDomain):
+    """+ a record of which exponent bits are read"""
+
+    def __init__(self, *a, **kw):
+        ExpoDomain.__init__(self, *a, **kw)
+        self.queries = []
+
+    def big_method(self, I, f, this, args):
+        if f.name == "bit":
+            self.queries.append(I.rv(args[0]))
+        return ExpoDomain.big_method(self, I, f, this, args)
+
+
 def exp_functions(tu):
     return sorted(q for q, f in tu.by_qname.items() if (q.startswith("exponentiate_restrict(") or q.startswith("exponentiate(")) and f.body is not None)
 
@@ -71,8 +84,27 @@ def gen_exponentiate(tu):
             loop = loops_of(f)[0]
             names = locals_of(f)
 
+            def counter_of(n):
+                """the loop counter: the variable a for-init declares, else the integer local the loop condition reads"""
+                try:
+                    return loop_var(n)
+                except SymxError:
+                    pass
+                init, cond, inc, body = for_parts(n)
+                ids = []
+
+                def walk(x):
+                    if x.get("kind") == "DeclRefExpr" and x.get("referencedDecl", {}).get("kind") == "VarDecl" and x["referencedDecl"].get("type", {}).get("qualType") == "int":
+                        ids.append(x["referencedDecl"]["id"])
+                    for c_ in x.get("inner", []) or []:
+                        walk(c_)
+                walk(cond)
+                if len(set(ids)) != 1:
+                    raise SymxError("loop counter of exponentiate_restrict not identified")
+                return ids[0]
+
             def run(path, f=f, F=F, bits=bits, loop=loop, names=names):
-                dom = ExpoDomain([F], consts=U.SHARED.get("consts"))
+                dom = SpyExpo([F], consts=U.SHARED.get("consts"))
                 I = Interp(tu, dom)
                 I.path = path
                 A = Lin.gen("a")
@@ -81,27 +113,54 @@ def gen_exponentiate(tu):
                 k = I.new_object("BigInt<%d>" % bits)
                 k.val = 0
 
+                # Loop contract, independent of how the loop is spelled (for / while, counter = index or index + 1): with m the exponent bit the
+                # next iteration reads,   res == a^(power >> (m+1)),   found_one == (power >> (m+1) != 0);   the first iteration reads bit bits-1,
+                # an iteration that read bit m >= 1 is followed by one that reads bit m-1, the one that read bit 0 is the last.
                 def cut(I_, n, env):
                     init, cond, inc, body = for_parts(n)
                     if init.get("kind"):
                         I_.exec(init, env)
-                    mode = I_.path.decide(("cut", "mode"), ("base", "step"))
+                    cv = counter_of(n)
+                    c_init = env[cv].v
+                    obs = [lin_eq("base: res == 1", res.val, Lin()), ("base: found_one == false", "ok" if env[names["found_one"]].v == 0 else "fail", "", None)]
+                    mode = I_.path.decide(("cut", "mode"), ("base", "step", "exit"))
                     if mode == "base":
-                        raise CutDone([lin_eq("base: res == 1", res.val, Lin()), ("base: found_one == false", "ok" if env[names["found_one"]].v == 0 else "fail", "", None),
-                                       ("base: i == bits - 1", "ok" if env[loop_var(n)].v == bits - 1 else "fail", repr(env[loop_var(n)].v), None)])
+                        dom.queries = []
+                        went = run_iteration(I_, n, env)
+                        raise CutDone(obs + [("base: the first iteration reads bit bits-1 (and only that bit)", "ok" if went and dom.queries == [bits - 1] else "fail", repr(dom.queries), None)])
+                    # the counter value at which bit m is read: c_init - (bits-1) + m   (offset fixed by the base case, which is checked above)
+                    at = lambda m: c_init - (bits - 1) + m
+                    if mode == "exit":
+                        env[cv].v = at(0)
+                        env[names["found_one"]].v = 1
+                        res.val = A.scale(Poly.var("R"))
+                        dom.queries = []
+                        went = run_iteration(I_, n, env)
+                        q1 = list(dom.queries)
+                        dom.queries = []
+                        again = run_iteration(I_, n, env)
+                        raise CutDone([("exit: the iteration that reads bit 0 runs", "ok" if went and q1 == [0] else "fail", repr(q1), None),
+                                       ("exit: it is the last one (guard false afterwards, no further bit read)", "ok" if (not again) and dom.queries == [] else "fail", repr(dom.queries), None)])
                     b = I_.path.decide(("cut", "bit"), (0, 1))
                     f1 = I_.path.decide(("cut", "found_one"), (0, 1))
-                    i0 = bits // 2 + 3
-                    env[loop_var(n)].v = i0
+                    i0 = I_.path.decide(("cut", "bit index"), tuple(range(1, bits)))     # every index: the counter is concrete control state
+                    env[cv].v = at(i0)
                     env[names["found_one"]].v = f1
                     k.val = b << i0
                     Rr = Poly.var("R") if f1 else Poly.const(0)
                     res.val = A.scale(Rr)
+                    dom.queries = []
                     went = run_iteration(I_, n, env)
+                    q1 = list(dom.queries)
+                    got, fo = res.val, env[names["found_one"]].v
+                    dom.queries = []
+                    k.val = 0
+                    again = run_iteration(I_, n, env)
                     raise CutDone([("step: guard holds", "ok" if went else "fail", "", None),
-                                   lin_eq("step[bit=%d,found_one=%d]: acc' == acc^2 * a^bit" % (b, f1), res.val, A.scale(2 * Rr + b)),
-                                   ("step: found_one'", "ok" if env[names["found_one"]].v == (1 if (f1 or b) else 0) else "fail", "", None),
-                                   ("step: i' == i - 1", "ok" if env[loop_var(n)].v == i0 - 1 else "fail", "", None)])
+                                   ("step: reads exactly bit m", "ok" if q1 == [i0] else "fail", "m = %d, read %r" % (i0, q1), None),
+                                   lin_eq("step[bit=%d,found_one=%d]: acc' == acc^2 * a^bit" % (b, f1), got, A.scale(2 * Rr + b)),
+                                   ("step: found_one'", "ok" if fo == (1 if (f1 or b) else 0) else "fail", "", None),
+                                   ("step: the next iteration reads bit m-1", "ok" if again and dom.queries == [i0 - 1] else "fail", repr(dom.queries), None)])
                 I.loop_cuts[loop["id"]] = cut
                 return run_cut(I, f, None, [res, a, k])
             yield q[:60], guarded(run)
